@@ -185,6 +185,16 @@ type env struct {
 	rs     map[[3]int][]*utils.ReedSolomonEncoder // field -> shared encoders (index H-1)
 }
 
+// tryObserve is observe that reports a panic instead of propagating it.
+func tryObserve(bc barcode.Barcode) (o observation, ok bool) {
+	defer func() {
+		if recover() != nil {
+			ok = false
+		}
+	}()
+	return observe(bc), true
+}
+
 // srcModified: Scale changed the barcode it was given.
 type srcModified struct{ what string }
 
@@ -276,7 +286,10 @@ func encodeCall(c *Call, e *env, buf []byte) (barcode.Barcode, error) {
 		private := !(c.Share && e != nil && e.shared[callKey(c.Src)] != nil)
 		var before observation
 		if private {
-			before = observe(src)
+			var ok bool
+			if before, ok = tryObserve(src); !ok {
+				private = false // the source cannot even be looked at (e.g. nil fill colour): nothing to compare
+			}
 		}
 		var out barcode.Barcode
 		var err error
@@ -289,8 +302,10 @@ func encodeCall(c *Call, e *env, buf []byte) (barcode.Barcode, error) {
 			out, err = barcode.ScaleWithFill(src, c.I1, c.I2, fillColor(c.Fill))
 		}
 		if private {
-			if d := before.diff(observe(src)); d != "" {
-				return nil, srcModified{d}
+			if after, ok := tryObserve(src); ok {
+				if d := before.diff(after); d != "" {
+					return nil, srcModified{d}
+				}
 			}
 		}
 		return out, err
